@@ -243,7 +243,7 @@ def primitive_family() -> tuple[Fam, dict[str, Any]]:
         # container is made visible to the reference-count oracle by storing a tracked object in it
         ("dict setdefault fresh list", [("r", "dict"), ("x", "object"), ("y", "object")], ["v = r.setdefault(x, [])", "v.append(y)", "return r"]),
         ("dict setdefault fresh dict", [("r", "dict"), ("x", "object"), ("y", "object")], ["v = r.setdefault(x, {})", "v[1] = y", "return r"]),
-        ("dict setdefault fresh set", [("r", "dict"), ("x", "object"), ("y", "object")], ["v = r.setdefault(x, set())", "v.add(1)", "return [r, y]"]),
+        ("dict setdefault fresh set", [("r", "dict"), ("x", "object"), ("y", "object")], ["v = r.setdefault(x, set())", "v.add(y)", "return r"]),
         ("set display", [("x", "object"), ("y", "object")], ["return {x, y}"]),
         ("set add", [("r", "set"), ("x", "object")], ["r.add(x)", "return r"]),
         ("set discard", [("r", "set"), ("x", "object")], ["r.discard(x)", "return r"]),
